@@ -2,9 +2,23 @@
 
 Real code: sigpy/mri/samp.py `poisson` (bisection driver) and `_poisson` (numba Bridson sampler).
 Model: lean/SigpyVerif/Model/C18.lean assembled from Gen/Samp.lean (regenerated from the source each run).
+
+"The mask depends only on the arguments and seed" is quantified over HISTORIES: besides single calls (and the identical
+call repeated back to back) the oracle runs call SEQUENCES in which a request recurs with other calls in between (other
+seeds, one argument swept and back, a second configuration interleaved, unseeded and must-raise calls, the caller
+overwriting the arrays it got back, the same values passed as numpy integers / lists / dtype names).  A sequence is run
+as the complete `poisson` history of a fresh process (a fork of an interpreter that has only imported the module and
+compiled the numba kernel); identical (arguments, seed) must give bitwise identical outcomes within the sequence
+(C18:history:same-process) and the same outcome as that request made as the very first call of a process
+(C18:history:fresh-process).  Findings are minimised (typically to seed=a, seed=b, seed=a) and the replay runs the listed
+calls again from a fresh process, so nothing outside the case dict is needed.  The correspondence driver stream also gets
+traces of calls that had a history: the model's bisection starts every call from (slopeMin0, slopeMax0).
 """
+import base64
+import hashlib
 import json
 import os
+import select
 import signal
 import subprocess
 import sys
@@ -31,6 +45,8 @@ THEOREMS = ["SigpyVerif.C18." + t for t in [
 
 K_EDGE = "C18:crop_corner:calib-touches-edge"
 K_STUCK = "C18:bisection:non-terminating"
+K_HIST_SAME = "C18:history:same-process"      # same arguments + seed, two calls in one process, different earlier calls
+K_HIST_FRESH = "C18:history:fresh-process"    # a call after other calls differs from the same call as first call of a process
 
 
 def translate(ctx):
@@ -100,6 +116,33 @@ def same_state(a, b):
     return a[0] == b[0] and np.array_equal(a[1], b[1]) and a[2:] == b[2:]
 
 
+SEED_KINDS = ["int", "int64", "int32", "uint32"]   # the same seed *value* as a Python int or a numpy integer scalar
+ARG_FORMS = ["tuple", "list", "npint"]              # img_shape / calib as tuple of ints, list of ints, tuple of np.int64
+DTYPE_FORMS = ["type", "dtype", "name"]             # np.float32 / np.dtype("float32") / "float32"
+CALL_LOG = []                                       # every case passed to the real `poisson` in this process, in order
+
+
+def call_args(c):
+    """the arguments of the real call for case c.  The optional keys seed_kind / arg_form / dtype_form change only the
+    Python *form* in which a value is passed (all forms are accepted by the unchanged code and denote the same value)"""
+    form = c.get("arg_form", "tuple")
+
+    def seq(v):
+        if form == "list":
+            return [int(t) for t in v]
+        if form == "npint":
+            return tuple(np.int64(t) for t in v)
+        return tuple(int(t) for t in v)
+
+    seed, sk = c["seed"], c.get("seed_kind", "int")
+    if seed is not None and sk != "int":
+        seed = getattr(np, sk)(seed)
+    dt, df = np.dtype(c["dtype"]), c.get("dtype_form", "type")
+    dtype = dt.type if df == "type" else dt if df == "dtype" else dt.name
+    return seq(c["shape"]), dict(calib=seq(c["calib"]), dtype=dtype, crop_corner=c["crop"], seed=seed,
+                                 max_attempts=c["max_attempts"], tol=c["tol"])
+
+
 def call_poisson(c):
     """one observed call of the real `poisson` under a watchdog.  Returns a record dict.
     outcome: returned | ValueError | error:<type> | stuck (state repeats) | hang (watchdog: no progress) |
@@ -107,8 +150,8 @@ def call_poisson(c):
     samp = samp_module()
     obs = Observer(samp._poisson, c["seed"] is not None)
     rec = dict(outcome=None, mask=None, err=None)
-    kw = dict(calib=tuple(c["calib"]), dtype=np.dtype(c["dtype"]).type, crop_corner=c["crop"], seed=c["seed"],
-              max_attempts=c["max_attempts"], tol=c["tol"])
+    shape, kw = call_args(c)
+    CALL_LOG.append(c)
     t0, seen = time.time(), [0]
 
     def tick(signum, frame):
@@ -124,7 +167,7 @@ def call_poisson(c):
     try:
         with warnings.catch_warnings():
             warnings.simplefilter("ignore")
-            m = samp.poisson(tuple(c["shape"]), c["accel"], **kw)
+            m = samp.poisson(shape, c["accel"], **kw)
         rec["outcome"], rec["mask"] = "returned", m
         if obs.calls:
             obs.calls[-1]["sum"] = float(np.sum(m.real))
@@ -147,7 +190,7 @@ def call_poisson(c):
         signal.setitimer(signal.ITIMER_REAL, 0)
         signal.signal(signal.SIGALRM, old)
         samp._poisson = obs.orig
-    rec["calls"], rec["r"] = obs.calls, obs.r
+    rec["calls"], rec["r"], rec["secs"] = obs.calls, obs.r, time.time() - t0
     return rec
 
 
@@ -194,22 +237,14 @@ def in_domain(c):
     return 0 <= cx < nx and 0 <= cy < ny and c["accel"] > 1 and c["tol"] > 0
 
 
-def check_oracle(ctx, c, origin, repeats=1):
-    """run the real code on case c and demand exactly what C18 states.  Returns (ok, record)."""
-    ok = True
-
-    def fail(key, what, observed=None, expected=None):
-        nonlocal ok
-        ok = False
-        ctx.fail(key, what, c, observed=observed, expected=expected, origin=origin)
-
+def judge(c, rec, st0, st1, fail, count):
+    """what C18 demands of ONE call of the real code (record `rec`, numpy global state before/after): global RNG
+    untouched; returns or raises ValueError (no hang, no other exception); a returned mask has the requested shape/dtype,
+    values in {0,1}, acceleration within tol, calibration block sampled, nothing outside the ellipse when cropping.
+    `fail(key, what, observed, expected)` is called for every violated clause."""
     ny, nx = c["shape"]
     cy, cx = c["calib"]
-    set_prior(c["prior"])
-    st0 = np.random.get_state()
-    rec = call_poisson(c)
-    st1 = np.random.get_state()
-    ctx.count("outcome:" + rec["outcome"].split(":")[0])
+    count("outcome:" + rec["outcome"].split(":")[0])
     if not same_state(st0, st1):
         fail("C18:global-rng", "numpy.random.get_state() differs before/after poisson(seed=%r)" % (c["seed"],),
              observed="pos %s -> %s, key equal: %s" % (st0[2], st1[2], np.array_equal(st0[1], st1[1])), expected="identical state")
@@ -222,21 +257,21 @@ def check_oracle(ctx, c, origin, repeats=1):
                  observed="after %d iterations slope_min=%r slope_max=%r slope=%r" % (len(rec["calls"]), lo, hi, s),
                  expected="a mask within tol or ValueError")
         else:
-            ctx.count("inconclusive:unseeded-same-slope-60x")
-        return ok, rec
+            count("inconclusive:unseeded-same-slope-60x")
+        return
     if rec["outcome"] == "slow":
-        ctx.count("inconclusive:slow-but-progressing")
-        return ok, rec
+        count("inconclusive:slow-but-progressing")
+        return
     if rec["outcome"].startswith("error"):
         fail("C18:exception", "poisson raised %s on a valid request" % rec["outcome"][6:], observed=rec["err"],
              expected="mask or ValueError")
-        return ok, rec
+        return
     if rec["outcome"] == "ValueError":
-        return ok, rec
+        return
     m = rec["mask"]
     if tuple(m.shape) != (ny, nx) or m.dtype != np.dtype(c["dtype"]):
         fail("C18:shape-dtype", "wrong shape/dtype", observed=(m.shape, str(m.dtype)), expected=((ny, nx), c["dtype"]))
-        return ok, rec
+        return
     vals = np.unique(m)
     if not all(v == 0 or v == 1 for v in vals):
         fail("C18:binary", "mask has values other than 0 and 1", observed=[complex(v) for v in vals][:8], expected="{0,1}")
@@ -260,7 +295,25 @@ def check_oracle(ctx, c, origin, repeats=1):
         if len(bad):
             fail("C18:crop", "sample outside the inscribed ellipse although crop_corner=True",
                  observed="%d points with r >= 1, e.g. %s" % (len(bad), bad[:4].tolist()), expected="0 wherever r >= 1")
-    if c["seed"] is not None:
+
+
+def check_oracle(ctx, c, origin, repeats=1):
+    """run the real code on case c and demand exactly what C18 states.  Returns (ok, record)."""
+    ok = True
+
+    def fail(key, what, observed=None, expected=None):
+        nonlocal ok
+        ok = False
+        ctx.fail(key, what, c, observed=observed, expected=expected, origin=origin)
+
+    set_prior(c["prior"])
+    st0 = np.random.get_state()
+    rec = call_poisson(c)
+    st1 = np.random.get_state()
+    judge(c, rec, st0, st1, fail, ctx.count)
+    if rec["outcome"] == "returned" and c["seed"] is not None and (
+            tuple(rec["mask"].shape) == tuple(c["shape"]) and rec["mask"].dtype == np.dtype(c["dtype"])):
+        m = rec["mask"]
         for k in range(repeats):
             np.random.seed((c["prior"][0] + 17 + k) % 2 ** 32)  # disturb numpy's global generator in between
             np.random.random(5)
@@ -271,6 +324,325 @@ def check_oracle(ctx, c, origin, repeats=1):
                      expected="bitwise identical mask")
                 break
     return ok, rec
+
+
+# =================================================================================================
+# histories: "the mask depends only on the arguments and seed" over call sequences
+# =================================================================================================
+def req_key(c):
+    """identity of a request by the VALUES of its arguments and seed (not by their Python form, not by the prior state
+    of numpy.random, not by what was called before)"""
+    return json.dumps([list(map(int, c["shape"])), float(c["accel"]), list(map(int, c["calib"])), float(c["tol"]), c["seed"],
+                       bool(c["crop"]), str(np.dtype(c["dtype"])), c["max_attempts"]])
+
+
+def mask_sig(m):
+    return hashlib.sha1((str(m.dtype) + str(m.shape)).encode() + np.ascontiguousarray(m).tobytes()).hexdigest()
+
+
+def run_calls(calls, scribble=False, keep=False):
+    """run the calls in order in THIS process; one JSON-able result per call: outcome, bitwise signature of the mask,
+    the violated single-call clauses (`judge`), timing.  scribble: after each call the caller overwrites the array it was
+    handed (it owns it) — a later result must not change because of that."""
+    out = []
+    for c in calls:
+        fails, counts = [], []
+        set_prior(c["prior"])
+        st0 = np.random.get_state()
+        rec = call_poisson(c)
+        st1 = np.random.get_state()
+        judge(c, rec, st0, st1, lambda key, what, observed=None, expected=None: fails.append(
+            [key, what, common._short(observed, 400), common._short(expected, 400)]), counts.append)
+        res = dict(outcome=rec["outcome"], err=rec["err"], secs=round(rec["secs"], 4), iters=len(rec["calls"]), fails=fails,
+                   counts=counts, slope=rec["calls"][-1]["st"][2] if rec["calls"] else None)
+        if rec["outcome"] == "returned":
+            m = rec["mask"]
+            res.update(sig=mask_sig(m), sum=float(np.sum(m.real)), shape=list(m.shape), dtype=str(m.dtype),
+                       nz=base64.b64encode(np.packbits(np.ascontiguousarray(m) != 0).tobytes()).decode())
+            if scribble and m.flags.writeable:
+                m[...] = (m == 0)
+        if keep:
+            res["rec"] = rec
+        out.append(res)
+    return out
+
+
+FRESH_CODE = r"""
+import sys, os, json, warnings, select, signal, time
+sys.path.insert(0, sys.argv[1]); sys.path.insert(0, sys.argv[2])
+warnings.simplefilter("ignore")
+import numpy as np
+from harness.props import c18
+samp = c18.samp_module()
+one = np.ones((2, 2))
+samp._poisson(2, 2, 0, one, one, (0, 0), 0)       # compile the numba kernel (int and None seed) by direct kernel calls;
+samp._poisson(2, 2, 0, one, one, (0, 0), None)    # `poisson` itself is NEVER called in this process, only in its forks
+print("ready", flush=True)
+for line in sys.stdin:
+    req = json.loads(line)
+    r, w = os.pipe()
+    pid = os.fork()
+    if pid == 0:
+        try:
+            os.close(r)
+            res = c18.run_calls(req["calls"], req.get("scribble", False))
+            with os.fdopen(w, "wb") as f:
+                f.write(json.dumps(res).encode())
+        finally:
+            os._exit(0)
+    os.close(w)
+    chunks, t_end = [], time.time() + req["limit"]
+    while True:
+        left = t_end - time.time()
+        if left <= 0 or not select.select([r], [], [], left)[0]:
+            os.kill(pid, signal.SIGKILL)
+            chunks = []
+            break
+        b = os.read(r, 1 << 16)
+        if not b:
+            break
+        chunks.append(b)
+    os.close(r)
+    os.waitpid(pid, 0)
+    print(b"".join(chunks).decode() or "null", flush=True)
+"""
+
+
+class Fresh:
+    """a pristine interpreter that has imported sigpy.mri.samp and compiled the numba kernel but has never called
+    `poisson`; every request is run in a fork of it, i.e. as the first `poisson` call(s) of a process.  A sequence run
+    there has exactly the listed calls as its history, which makes every reported sequence self-contained."""
+
+    def __init__(self):
+        self.p, self.asked, self.lost = None, 0, 0
+
+    def start(self):
+        if self.p is not None and self.p.poll() is None:
+            return True
+        try:
+            self.p = subprocess.Popen([sys.executable, "-c", FRESH_CODE, common.VERIF, common.REPO], stdin=subprocess.PIPE,
+                                      stdout=subprocess.PIPE, stderr=subprocess.DEVNULL, text=True, bufsize=1)
+        except OSError:
+            self.p = None
+            return False
+        return True
+
+    def _line(self, timeout):
+        if not select.select([self.p.stdout], [], [], timeout)[0]:
+            return None
+        return self.p.stdout.readline()
+
+    def ready(self):
+        if getattr(self, "_ready", False) and self.p is not None and self.p.poll() is None:
+            return True
+        if not self.start():
+            return False
+        ln = self._line(180)
+        self._ready = bool(ln) and ln.strip() == "ready"
+        if not self._ready:
+            self.close()
+        return self._ready
+
+    def run(self, calls, scribble=False, limit=None):
+        """results of the calls run in order in a fork of the pristine interpreter, or None (inconclusive: too slow / lost)"""
+        if not self.ready():
+            self.lost += 1
+            return None
+        limit = limit or (20 + 2 * len(calls))
+        try:
+            self.p.stdin.write(json.dumps(dict(calls=calls, scribble=scribble, limit=limit)) + "\n")
+            self.p.stdin.flush()
+            ln = self._line(limit + 20)
+        except (OSError, ValueError):
+            ln = None
+        self.asked += 1
+        if ln is None or not ln.strip():
+            self.close()
+            self.lost += 1
+            return None
+        res = json.loads(ln)
+        if res is None:
+            self.lost += 1
+        return res
+
+    def close(self):
+        if self.p is not None:
+            try:
+                self.p.kill()
+                self.p.communicate(timeout=10)
+            except Exception:  # noqa
+                pass
+        self.p, self._ready = None, False
+
+
+FRESH = Fresh()
+CONCLUSIVE = ("returned", "ValueError")
+
+
+def differs(a, b):
+    return a["outcome"] != b["outcome"] or (a["outcome"] == "returned" and a["sig"] != b["sig"])
+
+
+def describe(a):
+    if a["outcome"] != "returned":
+        return "%s after %d sampler calls" % (a["outcome"], a["iters"])
+    return "mask with %g samples (accepted slope %r after %d sampler calls)" % (a["sum"], a["slope"], a["iters"])
+
+
+def n_diff(a, b):
+    if a["outcome"] == b["outcome"] == "returned" and a["shape"] == b["shape"]:
+        x = np.frombuffer(base64.b64decode(a["nz"]), np.uint8)
+        y = np.frombuffer(base64.b64decode(b["nz"]), np.uint8)
+        return int(np.unpackbits(x ^ y).sum())
+    return None
+
+
+def shrink(calls, scribble, pred, keep_first, t_box=25.0, trials=40):
+    """greedy removal of calls (the last one, and the first one if keep_first, stay) while `pred(results)` still holds"""
+    t_end = time.time() + t_box
+    cur = list(calls)
+    changed = True
+    while changed and trials > 0 and time.time() < t_end:
+        changed = False
+        k = len(cur) - 2
+        while k >= (1 if keep_first else 0) and trials > 0 and time.time() < t_end:
+            cand = cur[:k] + cur[k + 1:]
+            trials -= 1
+            R = FRESH.run(cand, scribble)
+            if R is not None and pred(R):
+                cur, changed = cand, True
+            k -= 1
+    return cur
+
+
+def session_case(s, calls, **extra):
+    d = dict(kind="session", flavour=s.get("flavour", "?"), scribble=bool(s.get("scribble")), calls=calls)
+    d.update(extra)
+    return d
+
+
+def check_session(ctx, s, origin, do_shrink=True):
+    """a call sequence run as the complete `poisson` history of a fresh process.  Demands (i) every single call satisfies
+    `judge`; (ii) any two calls with the same argument values and seed (seed not None) give the same outcome and bitwise
+    the same mask, whatever was called in between; (iii) each of them equals the same request made as the very first call
+    of a fresh process.  Returns True when nothing was violated (or the run was inconclusive)."""
+    calls, scr = s["calls"], bool(s.get("scribble"))
+    ctx.count("session:" + s.get("flavour", "?"))
+    # only the first two findings of a run are minimised (each minimisation costs up to ~25 s of fresh-process runs)
+    do_shrink = do_shrink and sum(1 for f in ctx.failures if f["key"] in (K_HIST_SAME, K_HIST_FRESH)) < 2
+    R = FRESH.run(calls, scr)
+    if R is None:
+        ctx.count("session:inconclusive")
+        return True
+    ok = True
+    for i, (c, res) in enumerate(zip(calls, R)):
+        for k in res["counts"]:
+            ctx.count(k)
+        for key, what, obs, exp in res["fails"]:
+            ok = False
+            ctx.fail(key, what + " [call #%d of %d run in one fresh process]" % (i, len(calls)),
+                     session_case(s, calls[:i + 1], at=i), observed=obs, expected=exp, origin=origin)
+    groups = {}
+    for i, (c, res) in enumerate(zip(calls, R)):
+        if c["seed"] is not None and res["outcome"] in CONCLUSIVE:
+            groups.setdefault(req_key(c), []).append(i)
+    for key, idx in groups.items():
+        i = idx[0]
+        ctx.count("session:request")
+        if len(idx) > 1:
+            ctx.count("session:request-repeated")
+        bad = [j for j in idx[1:] if differs(R[i], R[j])]
+        if bad:
+            ok = False
+            j = bad[0]
+            sub = calls[i:j + 1]
+            if do_shrink:
+                sub = shrink(sub, scr, lambda Q: Q[0]["outcome"] in CONCLUSIVE and Q[-1]["outcome"] in CONCLUSIVE and differs(Q[0], Q[-1]), True)
+            Q = FRESH.run(sub, scr)
+            if Q is None or len(Q) != len(sub) or not differs(Q[0], Q[-1]):
+                sub, a, b = calls[:j + 1], R[i], R[j]   # the unshrunk prefix, exactly as it was run
+            else:
+                a, b = Q[0], Q[-1]
+            nd = n_diff(a, b)
+            ctx.fail(K_HIST_SAME, "the same arguments and seed give two different results in one process, depending on the calls made in between",
+                     session_case(s, sub, shrunk_from=len(calls)),
+                     observed="first occurrence: %s; last call of the sequence (same request): %s%s" % (
+                         describe(a), describe(b), "; %d mask entries differ" % nd if nd is not None else ""),
+                     expected="bitwise identical outcome for identical (arguments, seed)", origin=origin)
+            continue
+        if i == 0 or not s.get("fresh", True):
+            continue   # call #0 IS the first call of a fresh process, and every repetition was compared with it above
+        one = FRESH.run([calls[i]], scr)
+        if one is None or one[0]["outcome"] not in CONCLUSIVE:
+            ctx.count("session:fresh-ref-inconclusive")
+            continue
+        ctx.count("session:fresh-ref")
+        ref = one[0]
+        bad = [j for j in idx if differs(ref, R[j])]
+        if bad:
+            ok = False
+            j = bad[0]
+            sub = calls[:j + 1]
+            if do_shrink:
+                sub = shrink(sub, scr, lambda Q: Q[-1]["outcome"] in CONCLUSIVE and differs(ref, Q[-1]), False)
+            Q = FRESH.run(sub, scr)
+            if Q is None or len(Q) != len(sub) or not differs(ref, Q[-1]):
+                sub, Q = calls[:j + 1], R[:j + 1]
+            nd = n_diff(ref, Q[-1])
+            ctx.fail(K_HIST_FRESH, "the last call of the sequence gives a different result than the same call made as the first call of a process",
+                     session_case(s, sub, shrunk_from=len(calls)),
+                     observed="as first call of a fresh process: %s; after the %d listed calls: %s%s" % (
+                         describe(ref), len(sub) - 1, describe(Q[-1]), "; %d mask entries differ" % nd if nd is not None else ""),
+                     expected="bitwise identical outcome for identical (arguments, seed)", origin=origin)
+    return ok
+
+
+def check_warm(ctx, c, rec, origin):
+    """a single seeded call that this (long-running, many earlier `poisson` calls) process just made, against the same
+    call as first call of a fresh process.  A difference is turned into a self-contained sequence by replaying suffixes of
+    this process's call log in a fresh process."""
+    if c["seed"] is None or rec["outcome"] not in CONCLUSIVE or rec["secs"] > 2.0:
+        return True
+    if sum(1 for f in ctx.failures if f["key"] in (K_HIST_SAME, K_HIST_FRESH)) >= 3:
+        return True   # history dependence is already reported with concrete sequences; turning more of it up costs minutes
+    one = FRESH.run([c])
+    if one is None or one[0]["outcome"] not in CONCLUSIVE:
+        ctx.count("warm-vs-fresh:inconclusive")
+        return True
+    ctx.count("warm-vs-fresh")
+    ref = one[0]
+    mine = dict(outcome=rec["outcome"], sig=mask_sig(rec["mask"]) if rec["outcome"] == "returned" else None)
+    if not differs(ref, mine):
+        return True
+    try:
+        pos = max(k for k, d in enumerate(CALL_LOG) if d is c)
+    except ValueError:
+        pos = len(CALL_LOG)
+    hist, found, k = [strip_history(x) for x in CALL_LOG[:pos]], None, 1
+    t_end = time.time() + 60
+    while time.time() < t_end:
+        k = min(k, len(hist))
+        Q = FRESH.run(hist[len(hist) - k:] + [c], limit=30 + 2 * k)
+        if Q is not None and Q[-1]["outcome"] in CONCLUSIVE and differs(ref, Q[-1]):
+            found = hist[len(hist) - k:] + [c]
+            break
+        if k >= len(hist):
+            break
+        k *= 2
+    if found is not None:
+        sub = shrink(found, False, lambda Q: Q[-1]["outcome"] in CONCLUSIVE and differs(ref, Q[-1]), False, t_box=40, trials=60)
+        case = session_case(dict(flavour="call-log-suffix"), sub, shrunk_from=len(found))
+        what = "the last call of the sequence gives a different result than the same call made as the first call of a process"
+    else:
+        case = session_case(dict(flavour="warm-process-unreproduced"), [c],
+                            note="observed in the check's own process after %d earlier poisson calls; no suffix of the call log "
+                                 "reproduced it in a fresh process, so this replay may not fail" % len(hist))
+        what = "a call made after many other calls differs from the same call made as the first call of a process"
+    ctx.fail(K_HIST_FRESH, what, case,
+             observed="as first call of a fresh process: %s; in the running process: %s" % (
+                 describe(ref), rec["outcome"] if rec["outcome"] != "returned" else "mask with %g samples" % float(np.sum(rec["mask"].real))),
+             expected="bitwise identical outcome for identical (arguments, seed)", origin=origin)
+    return False
 
 
 # =================================================================================================
@@ -327,6 +699,157 @@ def gen_case(rng, big=True):
     return dict(shape=[ny, nx], accel=accel, calib=[cy, cx], tol=tol, seed=seed, crop=rng.random() < 0.6,
                 dtype=rng.choice(DTYPES), max_attempts=ma,
                 prior=[rng.randint(0, 2 ** 32 - 1), rng.choice([0, 0, 1, 7, 623, 624, 1000]), rng.random() < 0.4])
+
+
+def fresh_prior(rng):
+    return [rng.randint(0, 2 ** 32 - 1), rng.choice([0, 0, 1, 7, 623, 624, 1000]), rng.random() < 0.4]
+
+
+def vary_form(rng, c):
+    """the same request (same values) with a new prior numpy.random state and, sometimes, another Python form"""
+    d = {k: v for k, v in c.items() if k not in ("seed_kind", "arg_form", "dtype_form")}
+    if d["seed"] is not None and rng.random() < 0.15:
+        d["seed_kind"] = rng.choice(SEED_KINDS[1:])
+    if rng.random() < 0.1:
+        d["arg_form"] = rng.choice(ARG_FORMS[1:])
+    if rng.random() < 0.1:
+        d["dtype_form"] = rng.choice(DTYPE_FORMS[1:])
+    d["prior"] = fresh_prior(rng)
+    return d
+
+
+def session_base(rng, big):
+    """a seeded request on a grid up to 64x64, mostly attainable (so that whole sequences stay cheap), with a tolerance
+    biased to the tight side: the accepted slope then differs between seeds / neighbouring parameters, which is what makes
+    remembered state visible"""
+    while True:
+        c = gen_case(rng, big=big)
+        ny, nx = c["shape"]
+        if not in_domain(c) or nx * ny > 64 * 64:
+            continue
+        cy, cx = c["calib"]
+        c["seed"] = rng.choice([0, 0, 1, 80, rng.randint(0, 10 ** 4), rng.randint(0, 2 ** 31 - 1)])
+        c["tol"] = rng.choice([0.02, 0.05, 0.05, 0.1, 0.1, 0.1, 0.2])
+        return attainable(c)
+
+
+def attainable(c):
+    """the request with its acceleration raised, if necessary, above a conservative estimate of what the densest pattern
+    (slope 0) gives for ITS grid / calibration / max_attempts.  Below that, `poisson` walks slope_max down to the denormals
+    (~1080 dense sampler calls, seconds to minutes) before it raises: correct, exercised by the single-call search on
+    grids up to 24x24, but too slow for sequences of a dozen calls."""
+    (ny, nx), (cy, cx) = c["shape"], c["calib"]
+    cal, size = cx * cy, nx * ny
+    dens = (0.42 if c["max_attempts"] >= 10 else 0.3 if c["max_attempts"] >= 5 else 0.18)
+    lo = round(min(12.0, 1.15 * size / (cal + dens * (size - cal))), 3)
+    return c if c["accel"] >= lo else dict(c, accel=lo)
+
+
+def clip_calib(shape, calib):
+    return [max(0, min(int(cv), n - 1)) for cv, n in zip(calib, shape)]
+
+
+def param_values(rng, base, param):
+    """neighbouring values of one argument (the first is the base's own)"""
+    ny, nx = base["shape"]
+    cy, cx = base["calib"]
+    if param == "seed":
+        vals = [base["seed"]]
+        while len(vals) < rng.randint(3, 5):
+            v = rng.choice([0, 1, 2, 3, 80, rng.randint(0, 10 ** 4), rng.randint(0, 2 ** 31 - 1)])
+            if v not in vals:
+                vals.append(v)
+        return vals
+    if param == "accel":
+        a = float(base["accel"])
+        vals = [base["accel"]] + [round(min(12.0, max(1.01, a * f)), 3) for f in rng.sample([0.9, 0.95, 0.97, 1.03, 1.1, 1.25, 1.5], 3)]
+    elif param == "tol":
+        vals = [base["tol"]] + rng.sample([0.02, 0.05, 0.1, 0.2, 0.5, 1.0], 3)
+    elif param == "calib":
+        vals = [[cy, cx], [0, 0], [cy, 0], [0, cx], [cy + 1, cx + 2], [cx, cy], [max(cy, 2), max(cx, 2)], [1, 1]]
+        vals = [vals[0]] + rng.sample(vals[1:], 3)
+        vals = [clip_calib(base["shape"], v) for v in vals]
+    elif param == "max_attempts":
+        vals = [base["max_attempts"]] + rng.sample([30, 10, 5, 3, 2], 3)
+    elif param == "crop":
+        vals = [base["crop"], not base["crop"]]
+    elif param == "dtype":
+        vals = [base["dtype"]] + rng.sample(DTYPES, 3)
+    elif param == "shape":
+        vals = [[ny, nx], [nx, ny], [ny, ny], [nx, nx], [ny, max(16, nx - 1)], [min(64, ny + 1), nx]]
+        vals = [vals[0]] + rng.sample(vals[1:], 3)
+    out = []
+    for v in vals:
+        if v not in out:
+            out.append(v)
+    return out
+
+
+def with_param(base, param, v):
+    d = dict(base)
+    d[param] = v
+    if param == "shape":
+        d["calib"] = clip_calib(v, base["calib"])
+    return d
+
+
+SWEEPS = ["accel", "tol", "calib", "max_attempts", "crop", "dtype", "shape"]
+
+
+def gen_session(rng, big=True, flavour=None):
+    """a call sequence in which requests recur with different calls in between.
+    seeds      one configuration, 3-5 seeds, generated in one order and regenerated in another (frames of a dynamic scan)
+    sweep:<p>  one argument stepped through neighbouring values and back, the seed (or two alternating seeds) fixed
+    interleave two configurations (often the same shape, calibration zero / non-zero on an axis, or transposed) alternating
+    walk       random walk: each step changes one argument of the previous request or returns to an earlier request
+    plus, at random positions, unseeded calls (they advance the sampler's private generator) and requests that must raise."""
+    flavour = flavour or rng.choice(["seeds", "seeds", "seeds", "sweep", "sweep", "interleave", "walk"])
+    base = session_base(rng, big)
+    if flavour == "seeds":
+        reqs = [with_param(base, "seed", v) for v in param_values(rng, base, "seed")]
+        second = list(reversed(reqs)) if rng.random() < 0.5 else rng.sample(reqs, len(reqs))
+        calls = reqs + second + (reqs if rng.random() < 0.3 else [])
+    elif flavour == "sweep":
+        p = rng.choice(SWEEPS)
+        flavour = "sweep:" + p
+        reqs = [with_param(base, p, v) for v in param_values(rng, base, p)]
+        if rng.random() < 0.4:
+            s2 = rng.choice([x for x in [0, 1, 7, 80, 4242] if x != base["seed"]])
+            reqs = [with_param(r, "seed", s2) if k % 2 else r for k, r in enumerate(reqs)] + \
+                   [r if k % 2 else with_param(r, "seed", s2) for k, r in enumerate(reqs)]
+        calls = reqs + list(reversed(reqs))
+    elif flavour == "interleave":
+        other = dict(session_base(rng, big), dtype=base["dtype"])
+        k = rng.random()
+        if k < 0.35:     # same grid, calibration differs (zero / non-zero per axis)
+            other = with_param(base, "calib", rng.choice(param_values(rng, base, "calib")[1:] or [[0, 0]]))
+        elif k < 0.55:   # transposed grid: the axis lengths recur on the other axis
+            other = with_param(with_param(base, "shape", base["shape"][::-1]), "calib", clip_calib(base["shape"][::-1], other["calib"]))
+        elif k < 0.75:   # same grid, otherwise unrelated request
+            other = dict(other, shape=base["shape"], calib=clip_calib(base["shape"], other["calib"]))
+        s2 = rng.choice([x for x in [0, 1, 7, 80, 4242] if x != base["seed"]])
+        reqs = [base, other, with_param(base, "seed", s2), with_param(other, "seed", s2)]
+        calls = reqs + [rng.choice(reqs) for _ in range(rng.randint(3, 6))] + list(reversed(reqs))
+    else:
+        reqs, calls, cur = [base], [base], base
+        for _ in range(rng.randint(6, 10)):
+            if rng.random() < 0.45 and len(reqs) > 1:
+                cur = rng.choice(reqs)
+            else:
+                p = rng.choice(SWEEPS + ["seed", "seed"])
+                vals = param_values(rng, cur, p)
+                cur = with_param(cur, p, rng.choice(vals[1:] or vals))
+                reqs.append(cur)
+            calls.append(cur)
+        calls += [base, rng.choice(reqs)]
+    calls = [attainable(c) for c in calls if in_domain(c)][:14]
+    # disturbers
+    if rng.random() < 0.4:
+        for _ in range(rng.randint(1, 2)):
+            calls.insert(rng.randint(1, len(calls)), with_param(rng.choice(calls), "seed", None))
+    if rng.random() < 0.3:
+        calls.insert(rng.randint(1, len(calls)), with_param(rng.choice(calls), "tol", 1e-4))   # (almost surely) must raise
+    return dict(kind="session", flavour=flavour, scribble=rng.random() < 0.5, calls=[vary_form(rng, c) for c in calls])
 
 
 def pinned_cases():
@@ -653,11 +1176,17 @@ def correspond(ctx):
                 "{1,1.5,2,3,4}, scripted dyadic draws (v=sqrt(3u+1) exact, cos/sin multiples of 1/8) through "
                 "_poisson.py_func vs the Lean machine on the same stream, distinct by the full protocol line, non-trivial "
                 "when ≥ 2 outer iterations; driver/keep: real `poisson` calls (shapes 16..40 quick, random accel/calib/tol/"
-                "seed/max_attempts) observed at `_poisson` entry, bisection states and outcome vs the Lean driver fed with "
-                "the real mask sums, and the real r<1 field vs the model's exact r²<1")
+                "seed/max_attempts, plus call SEQUENCES in which requests recur: seed lists regenerated in another order, one "
+                "argument swept and back, two configurations interleaved) observed at `_poisson` entry, bisection states and "
+                "outcome vs the Lean driver fed with the real mask sums, and the real r<1 field vs the model's exact r²<1. "
+                "search: single calls as before + call sequences (seeds / sweep:<arg> / interleave / walk, with unseeded and "
+                "must-raise calls in between, argument forms int|np.int64|list|dtype-name, returned arrays overwritten by the "
+                "caller) run as the complete history of a fresh process and compared request-by-request with each other and "
+                "with the same request as first call of a fresh process")
     quick = ctx.tier == "quick"
     correspond_calib(ctx, 300 if quick else 3000)
     correspond_sampler(ctx, 300 if quick else 2500)
+    FRESH.start()   # the pristine interpreter used by the history oracle of `search` warms up meanwhile
     recs = []
     cases = pinned_cases() + [gen_case(ctx.rng, big=False) for _ in range(90 if quick else 500)]
     for c in cases:
@@ -665,6 +1194,16 @@ def correspond(ctx):
             continue
         set_prior(c["prior"])
         recs.append((c, call_poisson(c)))
+    # call sequences: the model's bisection starts every call from (slopeMin0, slopeMax0) and every slope is the midpoint,
+    # whatever was called before; a real trace that starts elsewhere after some history disagrees with it.  Each case
+    # carries the calls made before it in its sequence ("after") so that the search can re-run it with its history.
+    for _ in range(5 if quick else 30):
+        ses = gen_session(ctx.rng, big=False, flavour=ctx.rng.choice(["seeds", "seeds", "sweep", "interleave"]))
+        ctx.count("driver:sequence")
+        for k, res in enumerate(run_calls(ses["calls"], ses["scribble"], keep=True)):
+            recs.append((dict(ses["calls"][k], after=ses["calls"][:k], scribble=ses["scribble"]), res["rec"]))
+            if k:
+                ctx.count("driver:call-with-history")
     correspond_driver(ctx, recs)
     ctx.traces = ctx.evaluations
     ctx.assumptions += [
@@ -675,6 +1214,9 @@ def correspond(ctx):
         "arithmetic, not proved, checked on every real trace by the driver stream (flag mid-is-rounded-midpoint)",
         "float geometry of the sampler (sqrt, cos, sin, rounding of the neighbour test) is abstracted by the draw stream; "
         "the correspondence uses draws on which float and exact arithmetic coincide",
+        "history independence (the model has no state between calls: translator obligation on module-level state) is checked "
+        "on the real code by call sequences; 'a fresh process' is a fork of an interpreter that imported sigpy.mri.samp and "
+        "compiled `_poisson` by two direct kernel calls with max_attempts=0 (seed 0 and None) and never called `poisson`",
     ]
 
 
@@ -683,11 +1225,55 @@ def correspond(ctx):
 # =================================================================================================
 def search(ctx, budget):
     rng = ctx.rng
+    try:
+        _search(ctx, budget)
+    finally:
+        ctx.count("fresh-process:runs", FRESH.asked)
+        if FRESH.lost:
+            ctx.count("fresh-process:inconclusive", FRESH.lost)
+        FRESH.close()
+
+
+def strip_history(c):
+    return {k: v for k, v in c.items() if k not in ("after", "scribble")}
+
+
+def _search(ctx, budget):
+    rng = ctx.rng
+    FRESH.start()
+    # disagreeing calls that had a history: re-run the longest disagreeing prefix of each sequence (it contains the others)
+    longest = {}
+    for d in ctx.disagreements:
+        c = d["case"]
+        if isinstance(c, dict) and c.get("after") and in_domain(c):
+            sid = json.dumps(strip_history(c["after"][0]), sort_keys=True)
+            if sid not in longest or len(c["after"]) > len(longest[sid]["after"]):
+                longest[sid] = c
+    for c in list(longest.values())[:8]:
+        ses = dict(kind="session", flavour="disagreement", scribble=bool(c.get("scribble")),
+                   calls=[strip_history(x) for x in c["after"]] + [strip_history(c)])
+        ctx.case(("session", json.dumps(ses, sort_keys=True)))
+        check_session(ctx, ses, "disagreement")
     for d in ctx.disagreements[:60]:
         c = d["case"]
         if isinstance(c, dict) and "shape" in c and in_domain(c):
-            check_oracle(ctx, c, "disagreement")
+            check_oracle(ctx, strip_history(c), "disagreement")
     hang_regressions(ctx)
+    t_seq = ctx.elapsed()
+    # histories: call sequences as the complete history of a fresh process
+    ns = int(26 * budget)
+    t_end = ctx.elapsed() + (45 if budget <= 1 else 90 if budget <= 4 else 240 if budget <= 8 else 400)
+    for k in range(ns):
+        if ctx.elapsed() > t_end:
+            ctx.notes.append("sequence search stopped by its time box after %d of %d sequences" % (k, ns))
+            break
+        if sum(1 for f in ctx.failures if f["key"] in (K_HIST_SAME, K_HIST_FRESH)) >= 6:
+            ctx.notes.append("sequence search stopped after 6 history findings (%d sequences)" % k)
+            break
+        ses = gen_session(rng, big=rng.random() < 0.5)
+        ctx.case(("session", json.dumps(ses, sort_keys=True)), nontrivial=len(ses["calls"]) >= 3)
+        check_session(ctx, ses, "search")
+    ctx.notes.append("search: sequences took %.0f s (started at %.0f s)" % (ctx.elapsed() - t_seq, t_seq))
     for c in pinned_cases():
         ctx.case(("oracle", json.dumps(c, sort_keys=True)))
         check_oracle(ctx, c, "pinned")
@@ -705,7 +1291,10 @@ def search(ctx, budget):
         ctx.count("seed:%s" % ("None" if c["seed"] is None else "int"))
         if edge_class(c):
             ctx.count("class:calib-touches-edge")
-        check_oracle(ctx, c, "search")
+        ok, rec = check_oracle(ctx, c, "search")
+        if ok and k < int(110 * budget):
+            check_warm(ctx, c, rec, "search")
+    ctx.notes.append("search: finished at %.0f s" % ctx.elapsed())
 
 
 HANG_CODE = """
@@ -763,7 +1352,14 @@ def replay(path):
     if r.get("kind") != "failing-input":
         return 0
     ctx = common.Ctx(PROPERTY, "quick", 0)
-    ok, rec = check_oracle(ctx, r["case"], "replay", repeats=6)
+    if r["case"].get("kind") == "session":
+        # the listed calls are run, in order, as the complete `poisson` history of a fresh process
+        try:
+            ok = check_session(ctx, r["case"], "replay", do_shrink=False)
+        finally:
+            FRESH.close()
+    else:
+        ok, rec = check_oracle(ctx, r["case"], "replay", repeats=6)
     for f in ctx.failures:
         print("  %s: %s | observed %s | expected %s" % (f["key"], f["what"], f["observed"], f["expected"]))
     print("replay:", "property holds on this input" if ok else "property FAILS on this input")
